@@ -164,3 +164,102 @@ pub fn programs(kmax: usize) -> Vec<(String, P)> {
     }
     out
 }
+
+/// Pairs (f, g) of edge-free diagrams (plus a variant carrying one hyperedge each) whose common
+/// boundary identifies many nodes into ONE class through a long or deep pattern: zig-zag chains
+/// f0-g0-f1-g1-..., and "binomial" wire orders that make a union-by-rank structure grow a tree of
+/// depth d. Each in several wire orders. Sizes up to 2^6 nodes.
+pub fn gluing_pairs(kmax: usize, dmax: usize) -> Vec<(String, P, P)> {
+    let mut out = vec![];
+    let mut add = |name: String, nf: usize, ng: usize, wires: Vec<(usize, usize)>, out: &mut Vec<(String, P, P)>| {
+        let orders: Vec<(&str, Vec<(usize, usize)>)> = vec![
+            ("asc", wires.clone()),
+            ("desc", wires.iter().rev().cloned().collect()),
+            ("evens-odds", wires.iter().step_by(2).chain(wires.iter().skip(1).step_by(2)).cloned().collect()),
+        ];
+        for (on, w) in orders {
+            for with_edges in [false, true] {
+                let (ft, gs): (Vec<usize>, Vec<usize>) = w.iter().cloned().unzip();
+                let mut f = P { nodes: vec![0; nf], edges: vec![], s: (0..nf).collect(), t: ft };
+                let mut g = P { nodes: vec![0; ng], edges: vec![], s: gs, t: (0..ng).rev().collect() };
+                if with_edges {
+                    f.edges.push(edge(1, vec![0], vec![nf - 1]));
+                    g.edges.push(edge(2, vec![ng - 1, 0], vec![]));
+                }
+                out.push((format!("{}/{}{}", name, on, if with_edges { "+edges" } else { "" }), f, g));
+            }
+        }
+    };
+    for k in 1..=kmax {
+        // chain f0-g0-f1-g1-...-f(k-1)-g(k-1)
+        let mut w = vec![];
+        for i in 0..k {
+            w.push((i, i));
+            if i + 1 < k {
+                w.push((i + 1, i));
+            }
+        }
+        add(format!("zigzag({})", k), k, k, w, &mut out);
+        // two separate chains (two classes) that must NOT be merged
+        if k >= 2 {
+            let mut w = vec![];
+            for i in 0..k {
+                w.push((i, i));
+                if i + 2 < k {
+                    w.push((i + 2, i));
+                }
+            }
+            add(format!("two-zigzags({})", k), k, k, w, &mut out);
+        }
+    }
+    for d in 1..=dmax {
+        // level 1: (f_i, g_i); level L >= 2: (f_i, g_{i + 2^(L-2)}) for i a multiple of 2^(L-1)
+        let half = 1usize << (d - 1);
+        let mut w: Vec<(usize, usize)> = (0..half).map(|i| (i, i)).collect();
+        let mut l = 2;
+        while (1usize << (l - 1)) <= half {
+            let step = 1usize << (l - 1);
+            let mut i = 0;
+            while i + (step / 2) < half {
+                w.push((i, i + step / 2));
+                i += step;
+            }
+            l += 1;
+        }
+        let mut f = vec![];
+        // only the ascending order grows the deep tree; keep the other orders as controls
+        add(format!("binomial({})", d), half, half, w.clone(), &mut f);
+        out.extend(f);
+        // two deep trees tied together through the DEEPEST node of the first one (a union whose argument is
+        // far from its root), in both roles
+        for d2 in 1..=d {
+            let h2 = 1usize << (d2 - 1);
+            let mut w2 = w.clone();
+            // second block on fresh nodes
+            let mut blk: Vec<(usize, usize)> = (0..h2).map(|i| (half + i, half + i)).collect();
+            let mut l = 2;
+            while (1usize << (l - 1)) <= h2 {
+                let step = 1usize << (l - 1);
+                let mut i = 0;
+                while i + (step / 2) < h2 {
+                    blk.push((half + i, half + i + step / 2));
+                    i += step;
+                }
+                l += 1;
+            }
+            w2.extend(blk);
+            // the tie: root side of the second block with the deepest node of the first block
+            w2.push((half, half - 1));
+            let (ft, gs): (Vec<usize>, Vec<usize>) = w2.iter().cloned().unzip();
+            let n = half + h2;
+            let fdiag = P { nodes: vec![0; n], edges: vec![edge(1, vec![0], vec![n - 1])], s: (0..n).collect(), t: ft.clone() };
+            let gdiag = P { nodes: vec![0; n], edges: vec![], s: gs.clone(), t: (0..n).collect() };
+            out.push((format!("tied-binomials({},{})", d, d2), fdiag.clone(), gdiag.clone()));
+            // roles swapped: the g side supplies the roots
+            let f2 = P { nodes: vec![0; n], edges: vec![], s: (0..n).collect(), t: gs };
+            let g2 = P { nodes: vec![0; n], edges: vec![edge(1, vec![0], vec![n - 1])], s: ft, t: (0..n).collect() };
+            out.push((format!("tied-binomials-swapped({},{})", d, d2), f2, g2));
+        }
+    }
+    out
+}
